@@ -34,7 +34,9 @@ def c18_desc(rng, n):
             if free and rng.random() < 0.8:
                 bus = rng.choice(free)
         else:
-            fid = rng.randrange(2048)
+            fid = rng.choice([0, 1, 2047]) if rng.random() < 0.25 else rng.randrange(2048)   # the ends of the 11-bit id range now and then
+        if i < 2:
+            fid, bus = (0, 2047)[i], rng.choice(["can1", "can2"])      # both ends of the id range, every schema, on a full-length bus
         used.setdefault(fid, set()).add(bus)
         fs = [("id", fid)] + ([("bus", bus)] if bus is not None else [])
         desc["impls"].append({"protocol": "can", "type": f"S{i}", "name": f"S{i}", "fields": fs, "signals": []})
